@@ -68,7 +68,7 @@ def main():
                 out.append(("direct/psi", ["psi(%d, %s)" % (m, z)]))
             out.append(("direct/digamma", ["digamma(%s)" % z]))
             out.append(("direct/harmonic", ["harmonic(%s)" % z]))
-        for k in range(chk.pick(45, 900)):
+        for k in range(chk.pick(45, 250)):
             f = rng.choice(fams[:3]) if rng.random() < 0.35 else rng.choice(fams)
             src = f()
             out.append(("direct/%s" % src.split("(")[0], [src]))
